@@ -10,6 +10,8 @@
 //   reload    config.Coordinator.Reload sequences with bad files / failing subscribers (CReload).
 //   malformed bytes: only the outcome class (never panic, never hang). A TEST, not a proof (see props/C17.json).
 //   raw       corpus witnesses (YAML text): outcome class only.
+//   use       (use.go) load -> print -> build the real integrations -> notify through each (ok sink, failing sink,
+//             resolved) -> print: no canary, and the text is unchanged (the live config is immutable under traffic).
 //   concurrent real goroutines (no synctest): loaders loop config.Load while renderers loop Config.String() of an
 //             already loaded configuration full of canary secrets (what GET /api/v2/status does on every request)
 //             and a poller watches the process-wide switch commoncfg.MarshalSecretValue; a canary in any rendering,
@@ -1154,6 +1156,8 @@ func TestCheck(t *testing.T) {
 			x.reloadCase(c.Seed)
 		case "concurrent":
 			x.concurrentStream(vh.NewRand(env.Seed), 5*time.Second)
+		case "use":
+			x.useStream(vh.NewRand(env.Seed), 20)
 		case "malformed":
 			b, _ := base64.StdEncoding.DecodeString(c.B64)
 			x.malformed("replayed", b)
@@ -1199,6 +1203,7 @@ func TestCheck(t *testing.T) {
 			cbudget = 10 * time.Second
 		}
 		x.concurrentStream(r.Fork(), cbudget)
+		x.useStream(r.Fork(), env.N(30, 8))
 		// which secret-typed field paths were actually set at least once
 		total := secretTypePaths(reflect.TypeOf(config.Config{}), "", 0, map[reflect.Type]int{})
 		covered := 0
